@@ -64,6 +64,15 @@ func (p *Path) intrinsic(caller *frame, fn *ssa.Function, name string, args []Va
 		}
 		*st = smt.ConstBV(32, 1)
 		return smt.True, true
+	case "(*strings.Builder).copyCheck":
+		return nil, true
+	case "(*strings.Builder).String":
+		buf, _ := (*args[0].(*Value)).(Struct)[1].([]Value)
+		ts := make([]*smt.Term, len(buf))
+		for i, e := range buf {
+			ts[i] = e.(*smt.Term)
+		}
+		return strFromTerms(ts), true
 	case "fmt.Sprintf":
 		return p.sprintf(caller, p.strArg(args[0], "format"), args[1].([]Value)), true
 	case "fmt.Sprint":
@@ -258,7 +267,7 @@ func (p *Path) writeTo(caller *frame, w Iface, s Str) Value {
 	if s.approx || s.tok != nil || s.opq != nil {
 		p.abortf("writing an unmodelled string to a writer")
 	}
-	m := p.in.Prog.LookupMethod(w.T, nil, "Write")
+	m := p.method(w.T, "Write")
 	if m == nil {
 		p.abortf("writer %s has no Write", w.T)
 	}
@@ -307,7 +316,7 @@ func (p *Path) nativeArg(caller *frame, v Value, t types.Type) (out interface{},
 		}
 		// error / Stringer take precedence, as in fmt
 		for _, mname := range []string{"Error", "String"} {
-			if m := p.in.Prog.LookupMethod(v.T, nil, mname); m != nil && m.Signature.Params().Len() == 0 && m.Signature.Results().Len() == 1 {
+			if m := p.method(v.T, mname); m != nil && m.Signature.Params().Len() == 0 && m.Signature.Results().Len() == 1 {
 				if b, ok := m.Signature.Results().At(0).Type().Underlying().(*types.Basic); ok && b.Kind() == types.String {
 					if ptr, ok := v.V.(*Value); ok && ptr == nil {
 						return "<nil>", false
@@ -519,4 +528,13 @@ func (p *Path) sprintf(caller *frame, format string, args []Value) Str {
 		return Str{c: "<formatted: " + format + ">", approx: true}
 	}
 	return strFromTerms(out)
+}
+
+// method returns the SSA function implementing exported method name on T, or nil.
+func (p *Path) method(T types.Type, name string) *ssa.Function {
+	sel := p.in.Prog.MethodSets.MethodSet(T).Lookup(nil, name)
+	if sel == nil {
+		return nil
+	}
+	return p.in.Prog.MethodValue(sel)
 }
